@@ -217,7 +217,7 @@ func c11BoundaryBuf(modes []modeT, buf int) func(x *X) {
 
 func init() {
 	register(&Scenario{Prop: "C11", Name: "c11/frame-boundary", Quick: []Bound{{0, 0}, {1, 0}}, Thorough: []Bound{{2, 0}}, Body: c11Boundary(c11Modes[:5])})
-	register(&Scenario{Prop: "C11", Name: "c11/L2", Quick: []Bound{{0, 0}, {1, 0}}, Thorough: []Bound{{2, 0}}, Body: c11Body(2, c11Modes)})
+	register(&Scenario{Prop: "C11", Name: "c11/L2", Quick: []Bound{{0, 0}, {1, 0}}, Thorough: []Bound{{2, 0}}, Body: c11Body(2, c11Modes), BudgetQ: 30})
 	register(&Scenario{Prop: "C11", Name: "c11/L3", Quick: []Bound{{0, 0}}, Thorough: []Bound{{1, 0}}, Body: c11Body(3, c11Modes)})
 }
 
